@@ -2,6 +2,7 @@ import CwPlus.Lemmas.Ics20
 import CwPlus.Lemmas.Ics20Migrate
 import CwPlus.Lemmas.Ics20Env
 import CwPlus.Lemmas.Ics20TotalSent
+import CwPlus.Lemmas.Ics20Ledger
 /-!
 # C11 — cw20-ics20: escrow always covers outstanding vouchers, channel by channel
 
@@ -26,6 +27,8 @@ fails without E1 resp. E2.  E3 is used by C12 `storage_keys_faithful`; solvency 
 structural denomination (a bank denomination or a cw20 contract), which is what the holdings are.
 Further standing assumptions of the model (IBC core delivers at most one acknowledgement / timeout per
 sent packet — `admissible`; runtime dispatch semantics) are listed in `props/C11.json`.
+`channel_ledger_all_histories`, `channel_ledger_fresh`, `nontoken_never_pays` and `conservation` do not use
+`admissible` (they are over `runU` / `run`: every op of the history is executed).
 -/
 namespace CwPlus.Props.C11
 open CwPlus CwPlus.Ics20
@@ -770,5 +773,560 @@ stored version stays 0.13.0 and the state stays (trivially) solvent. -/
 example : (run wL [(b0, .connect "channel-1" ICS20_VERSION none false {}), (b0, .migrate none)]).st.version = ⟨0, 13, 0, none⟩ ∧
     ((wL.step b0 (.connect "channel-1" ICS20_VERSION none false {})).exec b0 (.migrate none)).tag = "multiplechannels" := by
   decide
+
+/-! ## All histories (no `admissible` filter); "escrowed" without re-baselining
+
+`runU` (Lemmas/Ics20Ledger.lean) carries the same ghosts as `runG` over *every* op of the history: a forged,
+repeated or stale acknowledgement / timeout is executed like any other transaction.  Its world is the
+plain history `run`. -/
+
+/-- **C11, channel_ledger / paidOut ≤ escrowed on every history** (clause "tokens paid out on a channel
+never exceed the tokens escrowed on it", without the IBC-core assumption `admissible`): the ghost history
+over all ops has the plain history `run w ops` as its world, and on it, per channel and denomination,
+`outstanding + paidOut + swallowed = escrowed` and `paidOut ≤ escrowed` — also when acknowledgements or
+timeouts are forged, repeated, or name packets that were never sent. -/
+theorem channel_ledger_all_histories (w : World) (ops : List (Block × Op)) (c : String) (d : Denom) :
+    (runU (w, Ghost.init w) ops).1 = run w ops ∧
+    outstanding (run w ops).st c d + (runU (w, Ghost.init w) ops).2.paidOut (c, d)
+      + (runU (w, Ghost.init w) ops).2.swallowed (c, d) = (runU (w, Ghost.init w) ops).2.sent (c, d) ∧
+    (runU (w, Ghost.init w) ops).2.paidOut (c, d) ≤ (runU (w, Ghost.init w) ops).2.sent (c, d) := by
+  have e : (runU (w, Ghost.init w) ops).1 = run w ops := runU_fst (w, Ghost.init w) ops
+  have h := runU_ledger ops (ledgerInv_init w)
+  have h1 := h.1 (c, d); have h2 := h.2 (c, d)
+  rw [e] at h1
+  refine ⟨e, ?_, ?_⟩
+  · rw [outstanding_eq]; omega
+  · omega
+
+/-- **C11, a migration of a current-version contract does not re-baseline `escrowed`**: when the stored
+version is newer than 0.13.0 and the ledger is consistent, the ghost step of `migrate` leaves `sent` — the
+"escrowed" side of `channel_ledger` — exactly as it was (with and without the `admissible` filter). -/
+theorem migrate_keeps_escrowed {w : World} {g : Ghost} (blk : Block) (gas : Option Nat)
+    (hv : PostV3 w) (hi : LedgerInv (w, g)) :
+    (stepG (w, g) blk (.migrate gas)).2.sent = g.sent ∧ (stepU (w, g) blk (.migrate gas)).2.sent = g.sent := by
+  have key : (stepU (w, g) blk (.migrate gas)).2.sent = g.sent := by
+    unfold stepU
+    cases hx : w.exec blk (.migrate gas) with
+    | error e => rfl
+    | ok r => obtain ⟨w', o⟩ := r; exact update_migrate_sent_postV3 hv hi hx
+  exact ⟨by rw [stepG_eq_stepU (by rfl)]; exact key, key⟩
+
+/-- **C11, "escrowed" is the sum of the accepted transfers** (closes the re-baselining gap of
+`channel_ledger` for every contract that does not come from a release ≤ 0.13.0): from a start state at a
+stored version newer than 0.13.0, on every history — `migrate` ops anywhere — the `escrowed` side of the
+ledger is what was outstanding at the start plus `sentOf`, the sum of the packet amounts of the accepted
+transfers on that channel and denomination, read off the transaction outcomes. -/
+theorem escrowed_is_sum_of_transfers (w : World) (ops : List (Block × Op)) (hv : PostV3 w) (c : String) (d : Denom) :
+    (runU (w, Ghost.init w) ops).2.sent (c, d) = outstanding w.st c d + sentOf w ops (c, d) :=
+  runU_sent_postV3 (wg := (w, Ghost.init w)) ops hv (ledgerInv_init w) (c, d)
+
+/-- **C11, channel ledger of a freshly instantiated contract**: on every history after `instantiate`,
+`outstanding + paidOut + swallowed = Σ accepted transfers` per channel and denomination, hence
+`paidOut ≤ Σ accepted transfers`: nothing in the statement is defined through the books. -/
+theorem channel_ledger_fresh {m : InstMsg} {s : State} (hi : instantiate m = .ok s) (w : World)
+    (ops : List (Block × Op)) (c : String) (d : Denom) :
+    outstanding (run { w with st := s } ops).st c d + (runU ({ w with st := s }, Ghost.init { w with st := s }) ops).2.paidOut (c, d)
+      + (runU ({ w with st := s }, Ghost.init { w with st := s }) ops).2.swallowed (c, d) = sentOf { w with st := s } ops (c, d) ∧
+    (runU ({ w with st := s }, Ghost.init { w with st := s }) ops).2.paidOut (c, d) ≤ sentOf { w with st := s } ops (c, d) := by
+  obtain ⟨_, h1, h2⟩ := channel_ledger_all_histories { w with st := s } ops c d
+  have h3 := escrowed_is_sum_of_transfers { w with st := s } ops (instantiate_postV3S hi) c d
+  have h0 : outstanding s c d = 0 := by
+    simp [instantiate] at hi
+    obtain ⟨_, allow, _, rfl⟩ := hi
+    rfl
+  simp only [h0] at h3
+  omega
+
+/-- **C11, solvency of a freshly instantiated contract** (`instantiate_solvent` composed with
+`solvency_with_migration`): after an accepted `instantiate`, in any world (any balances, tokens, faults),
+on every history with `migrate` ops anywhere, holdings ≥ Σ over channels of outstanding for every
+denomination, and the storage stays well-formed. -/
+theorem solvency_fresh {m : InstMsg} {s : State} (hi : instantiate m = .ok s) (w : World) (ops : List (Block × Op)) :
+    Solvent (run { w with st := s } ops) ∧ WellFormed (run { w with st := s } ops).st :=
+  solvency_with_migration { w with st := s } ops (instantiate_solvent hi w).1 (instantiate_wellFormed hi)
+
+/-- A forged timeout (for a packet nobody sent) appended to the demo history: `runG` skips it, `runU`
+executes it — the contract trusts IBC core and refunds 15 uatom to "mallory" — and the ledger identity
+still holds: 60 paid out of 60 escrowed on channel-0. -/
+def forged : Block × Op :=
+  (b0, .timeout "channel-0" (some ⟨15, .native "uatom", "bob", "mallory", none⟩) true true false)
+
+example : (runG (w0, Ghost.init w0) (hist ++ [forged])).1.bankBal "mallory" "uatom" = 0 ∧
+    (run w0 (hist ++ [forged])).bankBal "mallory" "uatom" = 15 ∧
+    outstanding (run w0 (hist ++ [forged])).st "channel-0" (.native "uatom") = 0 ∧
+    (runU (w0, Ghost.init w0) (hist ++ [forged])).2.paidOut ("channel-0", .native "uatom") = 60 ∧
+    (runU (w0, Ghost.init w0) (hist ++ [forged])).2.sent ("channel-0", .native "uatom") = 60 := by decide
+
+/-- `sentOf` on the demo history: 60 and 30 uatom escrowed on the two channels; on the legacy history the
+transfer of 5 before the migration. -/
+example : sentOf w0 hist ("channel-0", .native "uatom") = 60 ∧ sentOf w0 hist ("channel-1", .native "uatom") = 30 ∧
+    sentOf wL histL ("channel-0", .native "uatom") = 5 := by decide
+
+/-- `PostV3` is needed in `escrowed_is_sum_of_transfers`: from the 0.13.0 state `wL` the migration books
+the 60 uatom in flight, so `sent` (105) exceeds start + accepted transfers (40 + 5). -/
+example : (runU (wL, Ghost.init wL) histL).2.sent ("channel-0", .native "uatom") = 105 ∧
+    outstanding wL.st "channel-0" (.native "uatom") + sentOf wL histL ("channel-0", .native "uatom") = 45 := by decide
+
+/-- a fresh instantiation to which `channel_ledger_fresh` / `solvency_fresh` apply -/
+example : ∃ s, instantiate ⟨3600, ⟨true, "gov"⟩, [(⟨true, "T1"⟩, none)], some 100000⟩ = .ok s := ⟨_, rfl⟩
+
+/-! ## Refunds: the ghosts `paidOut` / `swallowed` are real token movements -/
+
+/-- What the balances look like after `amt` of denomination `d` moved from the contract to `to`
+(`to ≠ self`): `to` has `amt` more, the contract `amt` less, every other balance of either kind is as
+before. -/
+def Moved (w w' : World) (d : Denom) (to : Addr) (amt : Nat) : Prop :=
+  match d with
+  | .native dn =>
+    w'.bankBal to dn = w.bankBal to dn + amt ∧ w'.bankBal w.self dn + amt = w.bankBal w.self dn ∧
+    (∀ a x, (a, x) ≠ (to, dn) → (a, x) ≠ (w.self, dn) → w'.bankBal a x = w.bankBal a x) ∧ w'.tok = w.tok
+  | .cw20 t =>
+    w'.tokBal t to = w.tokBal t to + amt ∧ w'.tokBal t w.self + amt = w.tokBal t w.self ∧
+    (∀ t' a, (t', a) ≠ (t, to) → (t', a) ≠ (t, w.self) → w'.tokBal t' a = w.tokBal t' a) ∧ w'.bank = w.bank
+
+/-- A payout that went through moved exactly its amount from the contract to its recipient. -/
+theorem payout_moved {w w' : World} {sub : SubMsg} {tv f : Bool} (hp : w.payout sub tv f = some w')
+    (hto : sub.to ≠ w.self) : Moved w w' sub.denom sub.to sub.amount := by
+  unfold World.payout at hp
+  unfold Moved
+  split at hp
+  · rename_i dn hden
+    split at hp
+    · simp at hp
+    · obtain ⟨hle, hb⟩ := bankSend_spec hp
+      have htk := (bankSend_frame hp).2.1
+      rw [hden]
+      refine ⟨?_, ?_, ?_, htk⟩
+      · have := hb sub.to dn; simp [Ne.symm hto] at this; exact this
+      · have := hb w.self dn; simp [hto] at this; rw [this]; omega
+      · intro a x h1 h2
+        have := hb a x
+        simp [Ne.symm h1, Ne.symm h2] at this; exact this
+  · rename_i t hden
+    split at hp
+    · simp at hp
+    · obtain ⟨hle, hb⟩ := tokSend_spec hp
+      have hbk := (tokSend_frame hp).2.1
+      rw [hden]
+      refine ⟨?_, ?_, ?_, hbk⟩
+      · have := hb t sub.to; simp [Ne.symm hto] at this; exact this
+      · have := hb t w.self; simp [hto] at this; rw [this]; omega
+      · intro t' a h1 h2
+        have := hb t' a
+        simp [Ne.symm h1, Ne.symm h2] at this; exact this
+
+theorem refund_effects_core {w w' : World} {chan : String} {p : Packet} {tv sv f : Bool} {s1 : State} {sub : SubMsg}
+    {oack : Option Ack} (hf : onPacketFailure w.st chan (some p) tv = .ok (s1, sub))
+    (hc : (({ w with st := s1 } : World).payout sub sv f = some w' ∧ oack = none) ∨
+          (({ w with st := s1 } : World).payout sub sv f = none ∧ w' = { w with st := s1 } ∧ oack = some .error))
+    (hs : p.sender ≠ w.self) :
+    outstanding w'.st chan p.denom + p.amount = outstanding w.st chan p.denom ∧
+    (∀ k, k ≠ (chan, p.denom) → outAt w'.st.chan k = outAt w.st.chan k) ∧
+    sub.to = p.sender ∧ sub.amount = p.amount ∧ sub.denom = p.denom ∧
+    ((oack = none ∧ Moved w w' p.denom p.sender p.amount) ∨
+     (oack = some .error ∧ w'.bank = w.bank ∧ w'.tok = w.tok)) := by
+  obtain ⟨p', ch, hp', hred, rfl, hto, hsa, hsd, _⟩ := onPacketFailure_spec hf
+  cases hp'
+  obtain ⟨cs, hg, hle, _, ho, _⟩ := reduceBalance_spec hred
+  have hst : w'.st.chan = ch := by
+    rcases hc with ⟨hp, _⟩ | ⟨_, rfl, _⟩
+    · rw [(payout_frame hp).1]
+    · rfl
+  refine ⟨?_, ?_, hto, hsa, hsd, ?_⟩
+  · rw [outstanding_eq, outstanding_eq, hst, ho]
+    simp [outAt, hg]; omega
+  · intro k hk; rw [hst, ho k]; simp [hk]
+  · rcases hc with ⟨hp, ha⟩ | ⟨_, rfl, ha⟩
+    · left
+      refine ⟨ha, ?_⟩
+      have := payout_moved hp (by rw [hto]; exact hs)
+      rw [hsd, hto, hsa] at this
+      exact this
+    · exact Or.inr ⟨ha, rfl, rfl⟩
+
+/-- **C11, refund_effects (timeout)** — ties the ghosts `paidOut` / `swallowed` of a refund to real
+tokens (clause "tokens paid out … including when a refund sub-call fails"): a processed timeout of a
+packet whose sender is not the contract itself reduces the channel balance of the packet's denomination
+by exactly the packet's amount, touches no other key, and then either (`o.ack = none`, the case in which
+`Ghost.failure` books the amount as `paidOut`) exactly that amount moved from the contract to the
+packet's sender — every other bank and cw20 balance unchanged — or (`o.ack = some error`, booked as
+`swallowed`) the refund sub-call failed and no bank or cw20 balance changed at all: the tokens stay in
+escrow. -/
+theorem refund_effects_timeout {w w' : World} {blk : Block} {chan : String} {p : Packet} {sv tv f : Bool} {o : Outcome}
+    (h : w.exec blk (.timeout chan (some p) sv tv f) = .ok (w', o)) (hs : p.sender ≠ w.self) :
+    outstanding w'.st chan p.denom + p.amount = outstanding w.st chan p.denom ∧
+    (∀ k, k ≠ (chan, p.denom) → outAt w'.st.chan k = outAt w.st.chan k) ∧
+    (∃ sub, o.sub = some sub ∧ sub.to = p.sender ∧ sub.amount = p.amount ∧ sub.denom = p.denom) ∧
+    ((o.ack = none ∧ Moved w w' p.denom p.sender p.amount) ∨
+     (o.ack = some .error ∧ w'.bank = w.bank ∧ w'.tok = w.tok)) := by
+  obtain ⟨s1, sub, hf, hsub, hc⟩ := exec_timeout_cases h
+  obtain ⟨h1, h2, h3, h4, h5, h6⟩ := refund_effects_core hf hc hs
+  exact ⟨h1, h2, ⟨sub, hsub, h3, h4, h5⟩, h6⟩
+
+/-- **C11, refund_effects (error acknowledgement)**: the same for a processed error acknowledgement. -/
+theorem refund_effects_ack {w w' : World} {blk : Block} {chan : String} {p : Packet} {sv tv f : Bool} {o : Outcome}
+    (h : w.exec blk (.ack chan (some p) (some false) sv tv f) = .ok (w', o)) (hs : p.sender ≠ w.self) :
+    outstanding w'.st chan p.denom + p.amount = outstanding w.st chan p.denom ∧
+    (∀ k, k ≠ (chan, p.denom) → outAt w'.st.chan k = outAt w.st.chan k) ∧
+    (∃ sub, o.sub = some sub ∧ sub.to = p.sender ∧ sub.amount = p.amount ∧ sub.denom = p.denom) ∧
+    ((o.ack = none ∧ Moved w w' p.denom p.sender p.amount) ∨
+     (o.ack = some .error ∧ w'.bank = w.bank ∧ w'.tok = w.tok)) := by
+  rcases exec_ack_cases h with ⟨e, _⟩ | ⟨_, s1, sub, hf, hsub, hc⟩
+  · cases e
+  · obtain ⟨h1, h2, h3, h4, h5, h6⟩ := refund_effects_core hf hc hs
+    exact ⟨h1, h2, ⟨sub, hsub, h3, h4, h5⟩, h6⟩
+
+/-- The ghost bookkeeping of a failure follows the acknowledgement exactly as `refund_effects_*` reads
+it: `paidOut` grows by the amount iff `o.ack = none`, `swallowed` otherwise. -/
+theorem failure_ghost (g : Ghost) (chan : String) (p : Packet) (o : Outcome) (k : Key) :
+    (g.failure chan p o).paidOut k = g.paidOut k + (if o.ack = none ∧ k = (chan, p.denom) then p.amount else 0) ∧
+    (g.failure chan p o).swallowed k = g.swallowed k + (if o.ack ≠ none ∧ k = (chan, p.denom) then p.amount else 0) := by
+  unfold Ghost.failure
+  cases o.ack <;> by_cases hk : k = (chan, p.denom) <;> simp [hk]
+
+/-- the refund of the 60 uatom in the C12-style history: processed, `o.ack = none`, alice is paid -/
+example : ∃ w' o, (run w0 (hist.take 1)).exec b0 (.timeout "channel-0" (some ⟨60, .native "uatom", "bob", "alice", none⟩) true true false)
+      = .ok (w', o) ∧ o.ack = none ∧ w'.bankBal "alice" "uatom" = 100 := ⟨_, _, rfl, by decide, by decide⟩
+/-- the same refund with a failing sub-call is swallowed: error data, balances unchanged, books reduced -/
+example : ∃ w' o, (run w0 (hist.take 1)).exec b0 (.timeout "channel-0" (some ⟨60, .native "uatom", "bob", "alice", none⟩) true true true)
+      = .ok (w', o) ∧ o.ack = some .error ∧ w'.bankBal "alice" "uatom" = 40 ∧
+        outstanding w'.st "channel-0" (.native "uatom") = 0 := ⟨_, _, rfl, by decide, by decide, by decide⟩
+
+/-! ## Bad packets, closed form -/
+
+/-- Whenever `do_ibc_packet_receive` refuses a packet, the whole transaction is: error acknowledgement, no
+sub-message, world unchanged. -/
+theorem exec_recv_of_refused {w : World} {p : PacketIn} {tv : Bool} {e : String} (hd : doReceive w.st p tv = .error e)
+    (blk : Block) (rv f : Bool) : w.exec blk (.recv p rv tv f) = .ok (w, { ack := some .error, sub := none }) := by
+  simp [World.exec, ibcPacketReceive, hd, World.dispatch, bind, Except.bind, pure, Except.pure]
+
+/-- **C11, bad_packets_release_nothing in closed form** (clause 4 without assuming that the transaction
+succeeds, and including "no entry for the denomination at all, whatever the amount — even 0"): a packet
+whose data does not decode, whose denomination lacks the `port/channel/` prefix, names another port or
+another channel than the packet's source, asks for more than the channel's outstanding balance of the
+denomination, or names a denomination that has no entry on the receiving channel, is processed by a
+*successful* transaction whose result is exactly: error acknowledgement, no payout sub-message, the world
+— books and every balance — unchanged. -/
+theorem bad_packets_release_nothing_total (w : World) (blk : Block) (p : PacketIn) (rv tv f : Bool)
+    (hbad : p.amount = none ∨ p.voucher = none ∨
+      (∃ port c d, p.voucher = some (port, c, d) ∧ (port ≠ p.srcPort ∨ c ≠ p.srcChan)) ∨
+      (∃ amt port c d, p.amount = some amt ∧ p.voucher = some (port, c, d) ∧ outstanding w.st p.destChan d < amt) ∨
+      (∃ port c d, p.voucher = some (port, c, d) ∧ w.st.chan.get? (p.destChan, d) = none)) :
+    w.exec blk (.recv p rv tv f) = .ok (w, { ack := some .error, sub := none }) := by
+  cases hd : doReceive w.st p tv with
+  | error e => exact exec_recv_of_refused hd blk rv f
+  | ok r =>
+    exfalso
+    obtain ⟨s1, sub⟩ := r
+    obtain ⟨amt, d, ch, hamt, hv, hred, _⟩ := doReceive_spec hd
+    obtain ⟨cs, hg, hle, _⟩ := reduceBalance_spec hred
+    rcases hbad with h1 | h1 | ⟨port, c, d', h1, h2⟩ | ⟨amt', port, c, d', h1, h2, h3⟩ | ⟨port, c, d', h1, h2⟩
+    · rw [hamt] at h1; cases h1
+    · rw [hv] at h1; cases h1
+    · rw [hv] at h1; cases h1; rcases h2 with h2 | h2 <;> exact h2 rfl
+    · rw [hamt] at h1; cases h1
+      rw [hv] at h2; cases h2
+      simp [outstanding, hg] at h3; omega
+    · rw [hv] at h1; cases h1
+      rw [hg] at h2; cases h2
+
+/-- a zero-amount packet for a denomination never escrowed on the channel: covered by the new disjunct -/
+example : (run w0 hist).exec b0 (.recv (pkt "channel-0" "channel-10" (.native "ufoo") 0) true true false)
+    = .ok (run w0 hist, { ack := some .error, sub := none }) :=
+  bad_packets_release_nothing_total _ _ _ _ _ _ (Or.inr (Or.inr (Or.inr (Or.inr ⟨_, _, _, rfl, by decide⟩))))
+
+/-! ## Denominations that are no real token never pay -/
+
+theorem payout_some_token {w w' : World} {sub : SubMsg} {tv f : Bool} {t : Addr} (hp : w.payout sub tv f = some w')
+    (hd : sub.denom = .cw20 t) : w.tokens.contains t = true := by
+  unfold World.payout at hp
+  rw [hd] at hp
+  simp only at hp
+  split at hp
+  · cases hp
+  · rename_i hc
+    simp at hc
+    simpa using hc.1.1
+
+/-- One transaction never books a payout under a cw20 denomination whose address is not a token contract
+that exists. -/
+theorem update_paidOut_nontoken {w w' : World} {g : Ghost} {blk : Block} {op : Op} {o : Outcome}
+    (h : w.exec blk op = .ok (w', o)) {c : String} {t : Addr} (ht : w.tokens.contains t = false) :
+    (g.update w' op o).paidOut (c, .cw20 t) = g.paidOut (c, .cw20 t) := by
+  have nopay : ∀ {s1 : State} {sub : SubMsg} {tv f : Bool} {w2 : World},
+      ({ w with st := s1 } : World).payout sub tv f = some w2 → sub.denom ≠ .cw20 t := by
+    intro s1 sub tv f w2 hp hd
+    have := payout_some_token hp hd
+    simp only [ht] at this
+    cases this
+  cases op with
+  | connect id v cv ord peer => rfl
+  | chanOpen v cv ord => rfl
+  | chanClose id => rfl
+  | allow snd c' gg => rfl
+  | updateAdmin snd a => rfl
+  | migrate gas => rfl
+  | transferNative snd funds msg => simp only [Ghost.update]; split <;> rfl
+  | sendCw20 snd token amt msg => simp only [Ghost.update]; split <;> rfl
+  | hook snd funds sender amt msg => simp only [Ghost.update]; split <;> rfl
+  | recv p rv tv f =>
+    rcases exec_recv_cases h with ⟨_, _, ha, hsub⟩ | ⟨s1, sub, hd, hsub, hc⟩
+    · simp only [Ghost.update, ha, hsub]
+    · rcases hc with ⟨hp, ha⟩ | ⟨_, ha, _⟩
+      · simp only [Ghost.update, ha, hsub, bump_apply]
+        split
+        · rename_i hk; exact absurd (Prod.mk.inj hk).2.symm (nopay hp)
+        · rfl
+      · simp only [Ghost.update, ha, hsub]
+  | ack chan data ackOk sv tv f =>
+    rcases exec_ack_cases h with ⟨rfl, _, _, _⟩ | ⟨rfl, s1, sub, hf, _, hc⟩
+    · cases data <;> rfl
+    · obtain ⟨p, ch, rfl, _, _, _, _, hsd, _⟩ := onPacketFailure_spec hf
+      rcases hc with ⟨hp, ha⟩ | ⟨_, _, ha⟩
+      · simp only [Ghost.update, Ghost.failure, ha, bump_apply]
+        split
+        · rename_i hk; exact absurd (hsd.trans (Prod.mk.inj hk).2.symm) (nopay hp)
+        · rfl
+      · simp only [Ghost.update, Ghost.failure, ha]
+  | timeout chan data sv tv f =>
+    obtain ⟨s1, sub, hf, _, hc⟩ := exec_timeout_cases h
+    obtain ⟨p, ch, rfl, _, _, _, _, hsd, _⟩ := onPacketFailure_spec hf
+    rcases hc with ⟨hp, ha⟩ | ⟨_, _, ha⟩
+    · simp only [Ghost.update, Ghost.failure, ha, bump_apply]
+      split
+      · rename_i hk; exact absurd (hsd.trans (Prod.mk.inj hk).2.symm) (nopay hp)
+      · rfl
+    · simp only [Ghost.update, Ghost.failure, ha]
+
+theorem runU_paidOut_nontoken {wg : World × Ghost} (ops : List (Block × Op)) {c : String} {t : Addr}
+    (h1 : wg.1.tokens.contains t = false) (h0 : wg.2.paidOut (c, .cw20 t) = 0) :
+    (runU wg ops).2.paidOut (c, .cw20 t) = 0 := by
+  induction ops generalizing wg with
+  | nil => exact h0
+  | cons op rest ih =>
+    apply ih (wg := stepU wg op.1 op.2)
+    · rw [stepU_fst, (step_self_tokens wg.1 op.1 op.2).2]; exact h1
+    · unfold stepU
+      cases hx : wg.1.exec op.1 op.2 with
+      | error e => exact h0
+      | ok r => obtain ⟨w', o⟩ := r; simp only; rw [update_paidOut_nontoken hx h1]; exact h0
+
+theorem runG_paidOut_nontoken {wg : World × Ghost} (ops : List (Block × Op)) {c : String} {t : Addr}
+    (h1 : wg.1.tokens.contains t = false) (h0 : wg.2.paidOut (c, .cw20 t) = 0) :
+    (runG wg ops).2.paidOut (c, .cw20 t) = 0 := by
+  induction ops generalizing wg with
+  | nil => exact h0
+  | cons op rest ih =>
+    apply ih (wg := stepG wg op.1 op.2)
+    · rw [(stepG_self_tokens wg op.1 op.2).2]; exact h1
+    · unfold stepG
+      split
+      · cases hx : wg.1.exec op.1 op.2 with
+        | error e => exact h0
+        | ok r => obtain ⟨w', o⟩ := r; simp only; rw [update_paidOut_nontoken hx h1]; exact h0
+      · exact h0
+
+/-- **C11, non-token denominations never pay** (why it is harmless that a direct `Receive` hook call — from
+an account that is no token contract — is booked as "escrowed" although it moves nothing): on every
+history, filtered or not, nothing is ever paid out under a denomination `cw20:<t>` whose `t` is not a
+token contract that exists; whatever such a call books can only be swallowed or stay outstanding. -/
+theorem nontoken_never_pays (w : World) (ops : List (Block × Op)) (c : String) (t : Addr)
+    (ht : w.tokens.contains t = false) :
+    (runU (w, Ghost.init w) ops).2.paidOut (c, .cw20 t) = 0 ∧ (runG (w, Ghost.init w) ops).2.paidOut (c, .cw20 t) = 0 :=
+  ⟨runU_paidOut_nontoken ops ht rfl, runG_paidOut_nontoken ops ht rfl⟩
+
+/-- "mallory" is no token contract of `w0`: her direct hook call is booked, and nothing is ever paid for it -/
+example : w0.tokens.contains "mallory" = false := by decide
+
+/-! ## Exact conservation: the contract's holdings change only by escrow and by payouts that went through -/
+
+/-- Tokens of denomination `x` a successful transaction brought into the contract: the packet amount of an
+accepted native transfer or cw20 `Send` of that denomination (a direct hook call brings nothing). -/
+def escrowNow (op : Op) (o : Outcome) (x : Denom) : Nat :=
+  match op with
+  | .transferNative .. | .sendCw20 .. =>
+    (match o.sent with
+     | [out] => if out.packet.denom = x then out.packet.amount else 0
+     | _ => 0)
+  | _ => 0
+
+/-- Tokens of denomination `x` that left the contract in a successful transaction: the amount of its
+sub-message if the sub-call went through (success acknowledgement of an incoming packet; no error data for
+a refund) and the recipient is not the contract itself. -/
+def paidNow (self : Addr) (op : Op) (o : Outcome) (x : Denom) : Nat :=
+  match o.sub with
+  | none => 0
+  | some sub =>
+    let went : Bool := match op with
+      | .recv .. => o.ack == some .success
+      | _ => o.ack == none
+    if went = true ∧ sub.denom = x ∧ sub.to ≠ self then sub.amount else 0
+
+/-- Exact version of `payout_holdings`. -/
+theorem payout_holdings_eq {w w' : World} {sub : SubMsg} {tv f : Bool} (hp : w.payout sub tv f = some w')
+    (x : Denom) (h : Nat) (hx : w.holdings x = some h) :
+    ∃ h', w'.holdings x = some h' ∧ h' + (if sub.denom = x ∧ sub.to ≠ w.self then sub.amount else 0) = h := by
+  obtain ⟨_, hself, htok, _⟩ := payout_frame hp
+  unfold World.payout at hp
+  split at hp
+  · rename_i dn hden
+    split at hp
+    · simp at hp
+    · obtain ⟨hle, hb⟩ := bankSend_spec hp
+      have htk := (bankSend_frame hp).2.1
+      cases x with
+      | native y =>
+        simp only [World.holdings] at hx ⊢
+        simp at hx
+        refine ⟨_, rfl, ?_⟩
+        rw [hself, hb w.self y, hden]
+        by_cases hy : dn = y
+        · subst hy
+          by_cases hto : sub.to = w.self
+          · simp [hto]; omega
+          · simp [hto]; omega
+        · have : ¬ Denom.native dn = Denom.native y := by intro e; cases e; exact hy rfl
+          simp [hy, this]; exact hx
+      | cw20 t =>
+        simp only [World.holdings, htok, hself] at hx ⊢
+        split at hx
+        · rename_i hc
+          simp at hx
+          refine ⟨h, ?_, ?_⟩
+          · simp only [hc, if_true, World.tokBal, htk]; simp only [World.tokBal] at hx; rw [hx]
+          · rw [hden]; simp
+        · simp at hx
+  · rename_i t0 hden
+    split at hp
+    · simp at hp
+    · obtain ⟨hle, hb⟩ := tokSend_spec hp
+      have hbk := (tokSend_frame hp).2.1
+      cases x with
+      | native y =>
+        simp only [World.holdings] at hx ⊢
+        simp at hx
+        refine ⟨h, by simp [World.bankBal, hbk, hself]; exact hx, ?_⟩
+        rw [hden]; simp
+      | cw20 t =>
+        simp only [World.holdings, htok, hself] at hx ⊢
+        split at hx
+        · rename_i hc
+          simp at hx
+          simp only [hc, if_true]
+          refine ⟨_, rfl, ?_⟩
+          rw [hb t w.self, hden]
+          by_cases ht : t0 = t
+          · subst ht
+            by_cases hto : sub.to = w.self
+            · simp [hto]; omega
+            · simp [hto]; omega
+          · have : ¬ Denom.cw20 t0 = Denom.cw20 t := by intro e; cases e; exact ht rfl
+            simp [ht, this]; exact hx
+        · simp at hx
+
+/-- **C11, exact conservation per transaction** (strengthens solvency's `≥` to an equation on the token
+side): for every denomination that exists, `holdings' + paidNow = holdings + escrowNow` — the contract's
+real holdings change only by the escrow of an accepted transfer and by a payout / refund sub-message that
+went through to somebody else; no other transaction (governance, migration, handshake, refused packet,
+swallowed refund, direct hook call) moves a single token of the contract. -/
+theorem exec_conservation {w w' : World} {blk : Block} {op : Op} {o : Outcome} (h : w.exec blk op = .ok (w', o))
+    (x : Denom) (v : Nat) (hx : w.holdings x = some v) :
+    ∃ v', w'.holdings x = some v' ∧ v' + paidNow w.self op o x = v + escrowNow op o x := by
+  have same : ∀ {w2 : World}, w2.bank = w.bank → w2.tok = w.tok → w2.self = w.self → w2.tokens = w.tokens →
+      w2.holdings x = some v := by
+    intro w2 e2 e3 e4 e5; rw [holdings_congr e2 e3 e4 e5 x]; exact hx
+  cases op with
+  | connect id v' cv ord peer =>
+    obtain ⟨_, e2, e3, e4, e5, _, _, hsub, _⟩ := exec_plain_frame h (Or.inl ⟨id, v', cv, ord, peer, rfl⟩)
+    exact ⟨v, same e2 e3 e4 e5, by simp [paidNow, escrowNow, hsub]⟩
+  | chanOpen v' cv ord => obtain ⟨rfl, rfl⟩ := exec_chanOpen h; exact ⟨v, hx, by simp [paidNow, escrowNow]⟩
+  | chanClose id => exact (exec_chanClose h).elim
+  | allow snd c gg =>
+    obtain ⟨_, e2, e3, e4, e5, _, _, hsub, _⟩ := exec_plain_frame h (Or.inr (Or.inl ⟨snd, c, gg, rfl⟩))
+    exact ⟨v, same e2 e3 e4 e5, by simp [paidNow, escrowNow, hsub]⟩
+  | updateAdmin snd a =>
+    obtain ⟨_, e2, e3, e4, e5, _, _, hsub, _⟩ := exec_plain_frame h (Or.inr (Or.inr ⟨snd, a, rfl⟩))
+    exact ⟨v, same e2 e3 e4 e5, by simp [paidNow, escrowNow, hsub]⟩
+  | migrate gg =>
+    obtain ⟨_, e2, e3, e4, e5, _, hsub, _⟩ := exec_migrate_frame h
+    exact ⟨v, same e2 e3 e4 e5, by simp [paidNow, escrowNow, hsub]⟩
+  | transferNative snd funds msg =>
+    obtain ⟨d, amt, w1, s, out, _, hself, hb, hs', rfl, rfl⟩ := exec_transferNative_spec h
+    obtain ⟨ch, _, _, _, _, _, _, rfl, _⟩ := execTransfer_spec hs'
+    refine ⟨v + (if Denom.native d = x then amt else 0), ?_, by simp [paidNow, escrowNow]⟩
+    rw [holdings_st, bankSend_holdings hself hb x, hx]; rfl
+  | sendCw20 snd token amt msg =>
+    obtain ⟨w1, m, s, out, hself, _, hb, _, hs', rfl, rfl⟩ := exec_sendCw20_spec h
+    obtain ⟨ch, _, _, _, _, _, _, rfl, _⟩ := execTransfer_spec hs'
+    refine ⟨v + (if Denom.cw20 token = x then amt else 0), ?_, by simp [paidNow, escrowNow]⟩
+    rw [holdings_st, tokSend_holdings hself hb x, hx]; rfl
+  | hook snd funds sender amt msg =>
+    obtain ⟨m, s, out, _, _, _, rfl, rfl⟩ := exec_hook_spec h
+    exact ⟨v, by rw [holdings_st]; exact hx, by simp [paidNow, escrowNow]⟩
+  | recv p rv tv f =>
+    rcases exec_recv_cases h with ⟨_, rfl, _, hsub⟩ | ⟨s1, sub, hd, hsub, hc⟩
+    · exact ⟨v, hx, by simp [paidNow, escrowNow, hsub]⟩
+    · rcases hc with ⟨hp, ha⟩ | ⟨_, ha, ra, ch2, _, _, rfl⟩
+      · obtain ⟨v', h1, h2⟩ := payout_holdings_eq hp x v (by rw [holdings_st]; exact hx)
+        refine ⟨v', h1, ?_⟩
+        simp only [paidNow, escrowNow, hsub, ha, beq_self_eq_true, true_and]
+        exact h2
+      · exact ⟨v, by rw [holdings_st]; exact hx, by simp [paidNow, escrowNow, hsub, ha]⟩
+  | ack chan data ackOk sv tv f =>
+    rcases exec_ack_cases h with ⟨_, rfl, _, hsub⟩ | ⟨_, s1, sub, hf, hsub, hc⟩
+    · exact ⟨v, hx, by simp [paidNow, escrowNow, hsub]⟩
+    · rcases hc with ⟨hp, ha⟩ | ⟨_, rfl, ha⟩
+      · obtain ⟨v', h1, h2⟩ := payout_holdings_eq hp x v (by rw [holdings_st]; exact hx)
+        refine ⟨v', h1, ?_⟩
+        simp only [paidNow, escrowNow, hsub, ha, beq_self_eq_true, true_and]
+        exact h2
+      · exact ⟨v, by rw [holdings_st]; exact hx, by simp [paidNow, escrowNow, hsub, ha]⟩
+  | timeout chan data sv tv f =>
+    obtain ⟨s1, sub, hf, hsub, hc⟩ := exec_timeout_cases h
+    rcases hc with ⟨hp, ha⟩ | ⟨_, rfl, ha⟩
+    · obtain ⟨v', h1, h2⟩ := payout_holdings_eq hp x v (by rw [holdings_st]; exact hx)
+      refine ⟨v', h1, ?_⟩
+      simp only [paidNow, escrowNow, hsub, ha, beq_self_eq_true, true_and]
+      exact h2
+    · exact ⟨v, by rw [holdings_st]; exact hx, by simp [paidNow, escrowNow, hsub, ha]⟩
+
+/-- Σ over a history of what its successful transactions escrowed resp. paid out of denomination `x`. -/
+def escrowTotal (w : World) : List (Block × Op) → Denom → Nat
+  | [], _ => 0
+  | (blk, op) :: rest, x =>
+    (match w.exec blk op with | .ok (_, o) => escrowNow op o x | .error _ => 0) + escrowTotal (w.step blk op) rest x
+
+def paidTotal (w : World) : List (Block × Op) → Denom → Nat
+  | [], _ => 0
+  | (blk, op) :: rest, x =>
+    (match w.exec blk op with | .ok (_, o) => paidNow w.self op o x | .error _ => 0) + paidTotal (w.step blk op) rest x
+
+/-- **C11, conservation over histories**: for every denomination that exists, on every history,
+`holdings_end + Σ paid out = holdings_start + Σ escrowed` — tokens enter the contract only with accepted
+transfers and leave it only through payout / refund sub-messages that went through. -/
+theorem conservation (w : World) (ops : List (Block × Op)) (x : Denom) (v : Nat) (hx : w.holdings x = some v) :
+    ∃ v', (run w ops).holdings x = some v' ∧ v' + paidTotal w ops x = v + escrowTotal w ops x := by
+  induction ops generalizing w v with
+  | nil => exact ⟨v, hx, rfl⟩
+  | cons op rest ih =>
+    obtain ⟨blk, op⟩ := op
+    simp only [run, List.foldl_cons, paidTotal, escrowTotal]
+    cases hxe : w.exec blk op with
+    | error e =>
+      have hw : w.step blk op = w := by unfold World.step; rw [hxe]
+      rw [hw]
+      obtain ⟨v', h1, h2⟩ := ih w v hx
+      exact ⟨v', h1, by simp only [run] at h2 ⊢; omega⟩
+    | ok r =>
+      obtain ⟨w', o⟩ := r
+      have hw : w.step blk op = w' := by unfold World.step; rw [hxe]
+      rw [hw]
+      obtain ⟨v1, h1, h2⟩ := exec_conservation hxe x v hx
+      obtain ⟨v', h3, h4⟩ := ih w' v1 h1
+      exact ⟨v', h3, by simp only at h2 ⊢; omega⟩
+
+/-- on the demo history: 90 uatom escrowed, 45 paid out, 45 held -/
+example : escrowTotal w0 hist (.native "uatom") = 90 ∧ paidTotal w0 hist (.native "uatom") = 45 ∧
+    (run w0 hist).holdings (.native "uatom") = some 45 ∧ w0.holdings (.native "uatom") = some 0 := by decide
 
 end CwPlus.Props.C11
